@@ -283,6 +283,7 @@ func isInvoke(name string) func(*an.Expr) bool {
 }
 
 func runC13(c *Ctx) {
+	listingErrors(c, "R-C13-6", [][3]string{{"internal/plugin", "Prefix", "current"}, {"internal/plugin", "Prefix", "Apply"}, {"internal/system", "addresser", "AddressesByIndex"}})
 	cur := c.needMethod("R-C13-1", "internal/plugin", "Prefix", "current")
 	if cur == nil {
 		return
@@ -548,6 +549,7 @@ func c13Flags(c *Ctx) {
 // ---- C14 ------------------------------------------------------------------
 
 func runC14(c *Ctx) {
+	listingErrors(c, "R-C14-5", [][3]string{{"internal/plugin", "RDNSS", "current"}, {"internal/plugin", "RDNSS", "Apply"}, {"internal/system", "addresser", "AddressesByIndex"}})
 	cur := c.needMethod("R-C14-1", "internal/plugin", "RDNSS", "current")
 	if cur == nil {
 		return
@@ -940,6 +942,7 @@ func c14Compose(c *Ctx) {
 // ---- C15 ------------------------------------------------------------------
 
 func runC15(c *Ctx) {
+	listingErrors(c, "R-C15-5", [][3]string{{"internal/plugin", "Route", "current"}, {"internal/plugin", "Route", "Apply"}, {"internal/system", "addresser", "LoopbackRoutes"}, {"internal/system", "addresser", "routesByIndex"}})
 	cur := c.needMethod("R-C15-1", "internal/plugin", "Route", "current")
 	if cur == nil {
 		return
@@ -1212,4 +1215,21 @@ func c15Loopback(c *Ctx) {
 		}
 		c.R.Check(okTable, "R-C15-4", c.fname(rb)+":main-table", c.fname(rb), c.pos(rb.Pos()), fmt.Sprintf("request filters Table = RT_TABLE_MAIN (254): %v", okTable), "only the main routing table is dumped", "routes from other tables are advertised")
 	}
+}
+
+// listingErrors: a failure to list addresses or routes fails RA generation —
+// it is never swallowed into "nothing to advertise". Every error-returning
+// call in the listed functions is tested, and a non-nil error leads to a
+// non-nil error return.
+func listingErrors(c *Ctx, rule string, fns [][3]string) {
+	n := 0
+	for _, spec := range fns {
+		f := c.P.Method(spec[0], spec[1], spec[2])
+		if f == nil {
+			continue // per-OS: the rtnetlink addresser exists on linux only
+		}
+		n += errorDiscipline(c, rule, f, c.fname(f), "a failure to list addresses/routes is returned to the caller (RA generation fails)",
+			"a listing failure is swallowed: the RA silently carries no (or fewer) wildcard options")
+	}
+	c.R.Check(n >= 2, rule, "listing:error-sites", "", "", fmt.Sprintf("%d error-returning call site(s)", n), ">= 2", "anchor-missing")
 }
